@@ -22,7 +22,7 @@ static std::string op_brief(const OpResult& o)
 static Plan gen_c14(uint64_t seed, int64_t index, bool thorough)
 {
     Rng rng(hash_seed(seed, "C14", index));
-    std::vector<std::string> pk = keys_for({ "G1", "G2", "G3", "G4", "G6", "G7", "T1" }, false);
+    std::vector<std::string> pk = keys_for({ "G1", "G2", "G3", "G4", "G6", "G7", "G10", "G11", "T1" }, false);
     std::string key = rng.pick(pk);
     const ref::Model* m = model_for(grammar_of(key));
     OpShape sh;
@@ -48,6 +48,16 @@ static Plan gen_c14(uint64_t seed, int64_t index, bool thorough)
         sh.budget = thorough ? 24 : 12;
         op = make_sentence_op(rng, key, sh);
         if (rng.chance(1, 2)) add_token_faults(op, rng, rng.range(1, 2), *m);
+    }
+    else if (k < 97)
+    {
+        mode = "deep";      // the std::vector stacks cross their reserved capacity at every possible phase of a reduction
+        sh.budget = 4; sh.buffers = { BUF_SIM, BUF_STRING, BUF_VIEW }; sh.p_verbose = 0; sh.p_skip_ws_off = 0;
+        std::vector<std::string> dk = keys_for({ "G1", "G2", "G3", "G4", "G6", "G7", "G11" }, false);
+        key = rng.pick(dk);
+        op = make_sentence_op(rng, key, sh);
+        int target = thorough ? int(rng.pick(std::vector<int>{ 1024, 1024, 2048, 4096 })) : int(rng.pick(std::vector<int>{ 1024, 1024, 1024, 2048 }));
+        if (!make_deep_op(op, rng, key, target)) mode = "fault_free";
     }
     else
     {
@@ -97,7 +107,7 @@ static std::vector<Violation> case_c14(const Plan& p, CaseCtx& cx)
     std::vector<Violation> vs;
     RunResult rr = exec_plan(p, kFlags);
     const OpResult& o = rr.tasks[0][0];
-    account(cx, p, rr, o.rend.faults_fired > 0 || o.rec.alloc_fault_fired || p.mode == "grow");
+    account(cx, p, rr, o.rend.faults_fired > 0 || o.rec.alloc_fault_fired || p.mode == "grow" || p.mode == "deep");
     if (cx.st)
     {
         cx.st->add("mode." + p.mode);
@@ -146,7 +156,7 @@ static std::vector<Violation> case_c14(const Plan& p, CaseCtx& cx)
 static Plan gen_c16(uint64_t seed, int64_t index, bool thorough)
 {
     Rng rng(hash_seed(seed, "C16", index));
-    std::vector<std::string> pk = keys_for({ "G1", "G2", "G3", "G4", "G5", "G6", "G7", "G8", "G9", "T1" });
+    std::vector<std::string> pk = keys_for({ "G1", "G2", "G3", "G4", "G5", "G6", "G7", "G8", "G9", "G10", "G11", "T1" });
     std::string key = rng.pick(pk);
     const ref::Model* m = model_for(grammar_of(key));
     OpShape sh;
